@@ -4,10 +4,14 @@
 //
 //   scs <items> <chunks>                         -> "scs t c"
 //   scg <items> <chunks> <g>                     -> "scg t c"
-//   pf <kn> <start> <end> <mode> <chunk> <N> <maxThreads> <minItems> <gran> <wait> <rdv> <reuse>
+//   pf <kn> <start> <end> <mode> <chunk> <N> <maxThreads> <minItems> <gran> <wait> <rdv> <reuse> [<inpool>]
 //        kn: 0..7 = i8 u8 i16 u16 i32 u32 i64 u64;  mode: s(tatic) a(daptive) c(explicit chunk)
 //        rdv: 0 = plain bodies; k>0 = every body waits (<= 20 ms) until k bodies are inside at once
-//      -> "pf n a0 b0 s0 a1 b1 s1 ... | maxconc M stateconc S nstates K"   (chunks sorted by (a,b))
+//        inpool (optional, default 0): k>0 = issue the parallel_for from inside a task running on the worker of the pool under
+//              test whose ring index is k-1 (all N workers are first parked in force-queued tasks, so every ring index can be
+//              chosen deterministically; the main thread never runs the task)
+//      -> "pf n a0 b0 s0 a1 b1 s1 ... | maxconc M stateconc S nstates K ring R"   (chunks sorted by (a,b); R = ring index of
+//         the thread that called parallel_for, -1 = not a pool thread)
 //   fe <cat> <n> <N> <maxThreads> <wait>         -> "fe cnt0 cnt1 ... | maxconc M"   (per-element call counts)
 //   l3                                           -> "l3 <CpuSet::l3CacheGroups().size()>"  (machine parameter of the dynamic path)
 #include <dispenso/parallel_for.h>
@@ -73,9 +77,10 @@ static T parseT(const std::string& s) {
 template <typename T>
 static void runPf(std::istringstream& in) {
   std::string ss, es, mode, chs;
-  int N, wait, rdv, reuse;
+  int N, wait, rdv, reuse, inpool = 0;
   long long maxThreads, minItems, gran;
   in >> ss >> es >> mode >> chs >> N >> maxThreads >> minItems >> gran >> wait >> rdv >> reuse;
+  if (!(in >> inpool)) inpool = 0;
   T s = parseT<T>(ss), e = parseT<T>(es);
   dispenso::ThreadPool& pool = poolFor(N);
   std::vector<std::pair<std::pair<T, T>, int>> recs;
@@ -122,7 +127,9 @@ static void runPf(std::istringstream& in) {
     st.idx = nextState++;
     return st;
   };
-  {
+  int callerRing = -1;
+  auto core = [&]() {
+    callerRing = dispenso::detail::PerPoolPerThreadInfo::ringIndex(&pool);
     dispenso::TaskSet ts(pool);
     if (mode == "s") {
       auto r = dispenso::makeChunkedRange(s, e, dispenso::ParForChunking::kStatic);
@@ -136,11 +143,42 @@ static void runPf(std::istringstream& in) {
       dispenso::parallel_for(ts, states, gen, r, body, opt);
     }
     ts.wait();
+  };
+  if (inpool > 0 && N > 0) {
+    // park every worker in one force-queued task; the one with the wanted ring index issues the parallel_for
+    const int want = (inpool - 1) % N;
+    std::atomic<int> arrived{0}, finished{0};
+    std::atomic<bool> claimed{false};
+    for (int i = 0; i < N; ++i) {
+      pool.schedule(
+          [&]() {
+            int ring = dispenso::detail::PerPoolPerThreadInfo::ringIndex(&pool);
+            arrived.fetch_add(1);
+            auto t0 = std::chrono::steady_clock::now();
+            bool all = true;
+            while (arrived.load() < N) {
+              if (std::chrono::steady_clock::now() - t0 > std::chrono::milliseconds(200)) {
+                all = false;
+                break;
+              }
+              std::this_thread::yield();
+            }
+            bool mine = all ? (ring == want) : true;   // rendezvous failed: whoever comes first
+            bool expected = false;
+            if (mine && claimed.compare_exchange_strong(expected, true)) core();
+            finished.fetch_add(1);
+          },
+          dispenso::ForceQueuingTag());
+    }
+    while (finished.load() < N) std::this_thread::yield();
+    if (!claimed.load()) core();   // cannot happen with distinct ring indices 0..N-1; keep the case judged anyway
+  } else {
+    core();
   }
   std::sort(recs.begin(), recs.end());
   printf("pf %zu", recs.size());
   for (auto& r : recs) printf(" %s %s %d", tostr(r.first.first).c_str(), tostr(r.first.second).c_str(), r.second);
-  printf(" | maxconc %d stateconc %d nstates %zu\n", maxInside.load(), stateConc.load(), states.size());
+  printf(" | maxconc %d stateconc %d nstates %zu ring %d\n", maxInside.load(), stateConc.load(), states.size(), callerRing);
 }
 
 struct Elem {
